@@ -12,6 +12,7 @@ import (
 	"verifharness/fpfam"
 	"verifharness/loadfam"
 	"verifharness/outfam"
+	"verifharness/racefam"
 	"verifharness/remotefam"
 	"verifharness/rep"
 	"verifharness/shapefam"
@@ -78,6 +79,15 @@ func main() {
 			tier = os.Args[2]
 		}
 		os.Exit(execfam.CheckExec(os.Args[1], tier))
+	case "worker-race":
+		racefam.WorkerMain()
+		return
+	case "C18":
+		tier := "quick"
+		if len(os.Args) > 2 {
+			tier = os.Args[2]
+		}
+		os.Exit(racefam.Check(tier))
 	case "worker-shape":
 		shapefam.WorkerMain()
 		return
